@@ -34,7 +34,8 @@ class C06(Harness):
     bounds = {'quick': {'free_text_max_chars': 4, 'S1_lines': 3, 'S2_lines': 4}, 'thorough': {'free_text_max_chars': 6, 'S1_lines': 4, 'S2_lines': 6, 'S3_lines': 2}}
     assumptions = ['free text: every string of 0..N Unicode scalar values; agreement is required only when both readers return Ok',
                    'joint acceptance: structured well-formed documents (shapes S1/S2/S3 as in C03, same domain restrictions)',
-                   'value comparison: the sequence of value lines that are non-empty after trimming whitespace']
+                   'value comparison: the sequence of value lines that are non-empty after trimming whitespace',
+                   'additionally the S1 skeletons with continuation lines allowed to start with "#" (both readers treat such a line as a comment): agreement is decided whenever both accept']
     oracle_leniency = ['blank value lines (empty or whitespace only) are ignored on both sides, as the statement compares non-blank value lines']
 
     def cases(self, tier):
@@ -42,14 +43,16 @@ class C06(Harness):
         cs = [{'shape': 'free', 'n': n, 'order': n} for n in range(b['free_text_max_chars'] + 1)]
         cs.append({'shape': 'S1', 'L': b['S1_lines'], 'order': 4})
         cs.append({'shape': 'S2', 'L': b['S2_lines'], 'order': 5})
+        cs.append({'shape': 'S1', 'L': b['S1_lines'], 'cont_hash': True, 'order': 4})
         if 'S3_lines' in b: cs.append({'shape': 'S3', 'L': b['S3_lines'], 'w': 2, 'order': 6})
         return cs
 
     def run(self, e, case):
         wf = case['shape'] != 'free'
         if wf:
-            text, paras, kinds = gen_doc(e, case['shape'], case['L'], w=case.get('w', 2))
+            text, paras, kinds = gen_doc(e, case['shape'], case['L'], w=case.get('w', 2), cont_hash=case.get('cont_hash', False))
             s = Str(text); e.inputs['kinds'] = kinds
+            if case.get('cont_hash'): wf = False     # indented '#' lines are outside C03's domain: agreement is required, acceptance is not
         else:
             s = sym_text(e, case['n'])
         e.inputs['s'] = s; e.inputs['wf'] = wf
